@@ -1945,19 +1945,57 @@ class Stores:
         self.ctx = ctx
         self.duke = ctx.duke
 
+    def flows(self, e, A, depth=0):
+        """True if the value of e is (a part / a conversion of) a value held by one of the locals A: method chains, fields, `?`, casts,
+        transparent constructors and conversion calls (`T::try_from(x)`), and the surviving branches of `match` / `if` / blocks."""
+        if e is None or depth > 8:
+            return False
+        e = H.peel(e, refs=True, tries=True, casts=True)
+        r = H.recv_root(e)
+        if r and r[0] in A:
+            return True
+        k = e.get("k")
+        if k == "call":
+            c = H.ctor_of(e)
+            if (c and (c[0], c[1]) in TRANSPARENT_CTORS) or (not c and H.callee_name(e) in PASS_CALLS):
+                return any(self.flows(a, A, depth + 1) for a in e["args"])
+            return False
+        if k == "mcall":
+            return self.flows(e["recv"], A, depth + 1)
+        if k in ("field", "index"):
+            return self.flows(e["e"], A, depth + 1)
+        if k == "match":
+            return any(self.flows(a["body"], A, depth + 1) for a in e["arms"] if not H.diverges(a["body"]))
+        if k == "if":
+            return any(self.flows(x, A, depth + 1) for x in (e["then"], e.get("else")) if x is not None and not H.diverges(x))
+        if k == "block":
+            return "tail" in e and self.flows(e["tail"], A, depth + 1)
+        return False
+
     def aliases(self, body, start_ids):
+        """Locals that hold (a part / a conversion of) the start locals: bound by `let`, `if let` / `while let`, `let .. else`, a match
+        arm pattern or a `for` pattern from an expression the value flows through (so `let [x] = v.try_into().map_err(..)?` and
+        `let x = match <[_; 1]>::try_from(v) { Ok([x]) => x, Err(..) => bail!(..) }` give the same aliases)."""
         A = set(start_ids)
         changed = True
         while changed:
             changed = False
             for n in H.walk(body["body"]):
-                if n.get("k") == "let" and "init" in n:
-                    r = H.recv_root(n["init"])
-                    if r and r[0] in A:
-                        for i, _ in H.pat_bindings(n["pat"]):
-                            if i not in A:
-                                A.add(i)
-                                changed = True
+                k = n.get("k")
+                binds = []
+                if k == "let" and "init" in n and self.flows(n["init"], A):
+                    binds = H.pat_bindings(n["pat"])
+                elif k == "letexpr" and self.flows(n["init"], A):
+                    binds = H.pat_bindings(n["pat"])
+                elif k == "for" and self.flows(n["iter"], A):
+                    binds = H.pat_bindings(n["pat"])
+                elif k == "match" and self.flows(n["scrut"], A):
+                    for a in n["arms"]:
+                        binds = binds + H.pat_bindings(a["pat"])
+                for i, _ in binds:
+                    if i not in A:
+                        A.add(i)
+                        changed = True
         return A
 
     def sinks(self, body, start_ids, depth=0):
